@@ -29,6 +29,7 @@ def configs(tier, seed):
     for lag in ((0, 30) if st == 'timesorted' or tier == 'thorough' else (0,)):
       for mx in (('inf', 4) if tier == 'quick' else ('inf', 2, 6)):
         cfgs.append(dict(name='%s/lag%d/max%s' % (st, lag, mx), strategy=st, lag=lag, max=mx))
+    cfgs.append(dict(name='%s/marathon' % st, strategy=st, lag=0, max='inf', marathon=True))
   return cfgs
 
 
@@ -134,10 +135,63 @@ def oracle(h, cfg):
   return out
 
 
+def run_marathon(cfg, res, ns):
+  """One cache object living through tens of thousands of stores and drains (single thread, no scheduler): whatever a
+  strategy keeps across passes must stay consistent for the life of the daemon."""
+  import carbon.cache as cc
+  r = gen.rng(cfg['seed'], 'C17m', cfg['name'])
+  st = cfg['strategy']
+  cc._Cache = None
+  cache = cc.MetricCache()
+  model = {}
+  nm = 7
+  ndrains = 0
+  total = 12000 if cfg['tier'] == 'quick' else 60000
+  step = 0
+  while ndrains < total:
+    step += 1
+    for _ in range(r.randint(0, 3)):
+      m = 'm%d' % r.randrange(nm)
+      ts = 1000 + r.randrange(6)
+      try:
+        cache.store(m, (ts, float(step)))
+      except Exception as e:
+        res.violation('%s/marathon/store-raised/%s' % (st, type(e).__name__), 'store raised %r after %d drains on one cache object' % (e, ndrains))
+        return
+      model.setdefault(m, {})[ts] = float(step)
+    try:
+      metric, pts = cache.drain_metric()
+    except Exception as e:
+      res.violation('%s/marathon/drain-raised/%s' % (st, type(e).__name__), 'drain_metric raised %r at drain %d on one cache object' % (e, ndrains + 1))
+      return
+    ndrains += 1
+    if metric is None:
+      if any(model.values()):
+        res.violation('%s/marathon/empty-drain' % st, 'drain %d returned nothing while %d series hold datapoints' % (ndrains, sum(1 for v in model.values() if v)))
+        return
+      continue
+    want = model.get(metric) or {}
+    if sorted(want.items()) != list(pts):
+      res.violation('%s/marathon/wrong-batch' % st, 'drain %d handed out %r for %r, cached were %r' % (ndrains, pts[:4], metric, sorted(want.items())[:4]))
+      return
+    if st in ('max', 'bucketmax'):
+      mx_ = max(len(v) for v in model.values())
+      if len(pts) != mx_:
+        res.violation('%s/marathon/not-maximum' % st, 'drain %d returned %r holding %d datapoints while the maximum was %d' % (ndrains, metric, len(pts), mx_))
+        return
+    model[metric] = {}
+  res.count('marathon_drains', ndrains)
+  res.count('schedules_executed')
+  res.count('drains_observed', ndrains)
+  res.case(('marathon', st), nontrivial=True)
+
+
 def run_config(cfg, res):
   from vlib import boot, cachesim, sched as S
   ns = boot.boot('carbon-cache', {'CACHE_WRITE_STRATEGY': cfg['strategy'], 'MAX_CACHE_SIZE': cfg['max'], 'MIN_TIMESTAMP_LAG': cfg['lag'],
                                   'USE_FLOW_CONTROL': False})
+  if cfg.get('marathon'):
+    return run_marathon(cfg, res, ns)
   world = cachesim.World(ns)
   r = gen.rng(cfg['seed'], 'C17', cfg['name'])
   label = cfg['strategy']
